@@ -1,4 +1,4 @@
 #!/bin/bash
 # usage: confirm_batch3.sh <out log> name...   (names like C01_M3_1 -> /tmp/wt-C01/${MUTDIR:-MUT3}/1)
 out=$1; shift
-for n in "$@"; do p=${n%%_*}; i=${n##*_}; /verif/confirm_mut.sh /tmp/wt-$p/${MUTDIR:-MUT3}/$i $p $n; done > $out 2>&1
+for n in "$@"; do p=${n%%_*}; i=${n##*_}; /verif/confirm_mut.sh /tmp/${WTPREFIX:-wt}-$p/${MUTDIR:-MUT3}/$i $p $n; done > $out 2>&1
